@@ -51,3 +51,47 @@ type gvcErrResp struct{}
 func (gvcErrResp) Error(err stanza.Error) xml.TokenReader {
 	return stanza.IQ{Type: stanza.ErrorIQ}.Error(err)
 }
+
+// A data packet for a session that this side has closed must be refused with
+// item-not-found (and must not reach the closed connection).
+func TestGvcAdapterIBBDataAfterClose(t *testing.T) {
+	clientIBB := &ibb.Handler{}
+	serverIBB := &ibb.Handler{}
+	s := xmpptest.NewClientServer(
+		xmpptest.ClientHandler(mux.New(stanza.NSServer, ibb.Handle(clientIBB))),
+		xmpptest.ServerHandler(mux.New(stanza.NSClient, ibb.Handle(serverIBB))),
+	)
+	ln := serverIBB.Listen(s.Server)
+	go func() {
+		for {
+			if _, err := ln.Accept(); err != nil {
+				return
+			}
+		}
+	}()
+	ctx, cancel := context.WithTimeout(context.Background(), 5*time.Second)
+	defer cancel()
+	conn, err := clientIBB.Open(ctx, s.Client, s.Server.LocalAddr())
+	if err != nil {
+		fmt.Printf("NOT-REPRODUCED ibb data after close: open failed: %v\n", err)
+		return
+	}
+	sid := conn.SID()
+	if err = conn.Close(); err != nil {
+		fmt.Printf("NOT-REPRODUCED ibb data after close: close failed: %v\n", err)
+		return
+	}
+	payload := xmlstream.Wrap(
+		xmlstream.Token(xml.CharData("QUJD")),
+		xml.StartElement{Name: xml.Name{Space: ibb.NS, Local: "data"}, Attr: []xml.Attr{
+			{Name: xml.Name{Local: "seq"}, Value: "0"}, {Name: xml.Name{Local: "sid"}, Value: sid},
+		}},
+	)
+	err = s.Server.UnmarshalIQElement(ctx, payload, stanza.IQ{Type: stanza.SetIQ, To: s.Client.LocalAddr()}, nil)
+	if err == nil {
+		fmt.Println("REPRODUCED ibb: a data packet for a session closed by this side was accepted (result reply) instead of refused with item-not-found")
+		t.Fail()
+		return
+	}
+	fmt.Printf("NOT-REPRODUCED ibb data after close: refused with %v\n", err)
+}
